@@ -314,6 +314,65 @@ pub fn run(run: &mut Run) {
         check_extract,
         |_c, _v| None,
     );
+    // a resource name means something inside one page's /Resources only: several pages in one call
+    run.campaign(
+        "extraction-several-pages",
+        || (vec((0u8..5, vec(any::<u8>(), 1..12)), 2..4), any::<bool>()).prop_map(|(pages, reversed)| PagesCase { pages, reversed }),
+        run.tier.pick(3_000, 100_000),
+        check_extract_pages,
+        |_c, _v| None,
+    );
+}
+
+/// several pages, each with its OWN /Resources binding the same font name /F1 to a font of another encoding
+#[derive(Clone, Debug, Serialize, Deserialize)]
+pub struct PagesCase {
+    /// per page: encoding index, character picks
+    pub pages: Vec<(u8, Vec<u8>)>,
+    /// order in which the page numbers are handed to extract_text (selector)
+    pub reversed: bool,
+}
+
+pub fn check_extract_pages(c: &PagesCase) -> Verdict {
+    let mut rep = CaseReport::new();
+    let mut doc = Document::with_version("1.5");
+    let pages_id = doc.new_object_id();
+    let mut kids: Vec<Object> = vec![];
+    let mut texts: Vec<String> = vec![];
+    for (e, picks) in &c.pages {
+        let name = ENCODINGS[*e as usize % ENCODINGS.len()];
+        let font_id = doc.add_object(dictionary! { "Type" => "Font", "Subtype" => "Type1", "BaseFont" => "Courier", "Encoding" => name });
+        let enc = doc.get_dictionary(font_id).unwrap().get_font_encoding(&doc).map_err(|e| viol!("encoding-unavailable", "{:?}", e))?;
+        let rep_chars = repertoire(&enc);
+        if rep_chars.is_empty() {
+            return Ok(rep);
+        }
+        let text: String = picks.iter().map(|p| rep_chars[(*p as usize * rep_chars.len()) >> 8]).collect();
+        let bytes = Document::encode_text(&enc, &text);
+        drop(enc);
+        let content = Content { operations: vec![Operation::new("BT", vec![]), Operation::new("Tf", vec!["F1".into(), 12.into()]), Operation::new("Tj", vec![Object::string_literal(bytes)]), Operation::new("ET", vec![])] };
+        let content_id = doc.add_object(Stream::new(dictionary! {}, content.encode().map_err(|e| viol!("encode-error", "{}", e))?));
+        let page_id = doc.add_object(dictionary! { "Type" => "Page", "Parent" => pages_id, "Contents" => content_id, "Resources" => dictionary! { "Font" => dictionary! { "F1" => font_id } } });
+        kids.push(page_id.into());
+        texts.push(text);
+    }
+    let n = kids.len();
+    doc.objects.insert(pages_id, Object::Dictionary(dictionary! { "Type" => "Pages", "Kids" => kids, "Count" => n as i64 }));
+    let catalog_id = doc.add_object(dictionary! { "Type" => "Catalog", "Pages" => pages_id });
+    doc.trailer.set("Root", catalog_id);
+    let mut order: Vec<u32> = (1..=n as u32).collect();
+    if c.reversed {
+        order.reverse();
+    }
+    let expected: String = order.iter().map(|p| format!("{}\n", texts[*p as usize - 1])).collect();
+    let got = no_panic("extract_text", || doc.extract_text(&order))?.map_err(|e| viol!("extraction-differs", "extract_text fails: {:?}", e))?;
+    if got != expected {
+        return Err(viol!("extraction-differs", "pages {:?} (encodings {:?}, each page binds /F1 itself): extract_text returns {:?}, the pages show {:?}", order, c.pages.iter().map(|(e, _)| ENCODINGS[*e as usize % ENCODINGS.len()]).collect::<Vec<_>>(), got, expected));
+    }
+    let distinct = c.pages.iter().map(|(e, _)| e % ENCODINGS.len() as u8).collect::<std::collections::BTreeSet<_>>().len();
+    rep.label_if(distinct >= 2, "same-font-name-different-encodings");
+    rep.nontrivial = distinct >= 2 && texts.iter().any(|t| !t.is_ascii());
+    Ok(rep)
 }
 
 pub fn replay(file: &Value) -> Result<Verdict, String> {
@@ -322,6 +381,7 @@ pub fn replay(file: &Value) -> Result<Verdict, String> {
         "malformed-text-strings" => Ok(check_malformed(&replay_case::<RawCase>(file)?)),
         "encoding-cells" => Ok(check_cell(&replay_case::<CellCase>(file)?)),
         "extraction" => Ok(check_extract(&replay_case::<ExtractCase>(file)?)),
+        "extraction-several-pages" => Ok(check_extract_pages(&replay_case::<PagesCase>(file)?)),
         _ => Ok(check_random_string(&replay_case::<StrCase>(file)?)),
     }
 }
